@@ -2,6 +2,8 @@ package fsm
 
 import (
 	"sort"
+	"strconv"
+	"strings"
 
 	"fmt"
 
@@ -173,7 +175,21 @@ func (s *State) apply(args []string, pc matcher.ParseContext) bool {
 // deadKey identifies a configuration entered right after input was consumed: whether it leads to
 // a terminal state depends on nothing else
 func deadKey(s *State, args []string, rejectOptions bool) string {
-	return fmt.Sprintf("%p %t %q", s, rejectOptions, args)
+	n := 32
+	for _, a := range args {
+		n += len(a) + 8
+	}
+	var b strings.Builder
+	b.Grow(n)
+	fmt.Fprintf(&b, "%p %t", s, rejectOptions)
+	for _, a := range args {
+		// length-prefixed: no argument can be mistaken for two
+		b.WriteByte(' ')
+		b.WriteString(strconv.Itoa(len(a)))
+		b.WriteByte(':')
+		b.WriteString(a)
+	}
+	return b.String()
 }
 
 // applyFrom is apply with the set of states already entered since input was last consumed:
@@ -217,12 +233,17 @@ func (s *State) applyFrom(args []string, pc matcher.ParseContext, seen map[*Stat
 
 	for _, m := range matches {
 		nextSeen := seen
+		progress := m.pc.RejectOptions != pc.RejectOptions || !sameArgs(m.rem, args)
 		key := ""
-		if m.pc.RejectOptions != pc.RejectOptions || !sameArgs(m.rem, args) {
+		if progress {
 			nextSeen = nil
-			key = deadKey(m.tr.Next, m.rem, m.pc.RejectOptions)
-			if dead[key] {
-				continue
+			// nothing has failed yet on most command lines: the key, which costs a pass over what is
+			// left of the line, is only built once there is something to look up or to record
+			if len(dead) > 0 {
+				key = deadKey(m.tr.Next, m.rem, m.pc.RejectOptions)
+				if dead[key] {
+					continue
+				}
 			}
 		} else if seen[m.tr.Next] {
 			continue
@@ -231,7 +252,10 @@ func (s *State) applyFrom(args []string, pc matcher.ParseContext, seen map[*Stat
 			pc.Merge(m.pc)
 			return true
 		}
-		if key != "" {
+		if progress {
+			if key == "" {
+				key = deadKey(m.tr.Next, m.rem, m.pc.RejectOptions)
+			}
 			dead[key] = true
 		}
 	}
